@@ -285,6 +285,12 @@ func bestPracticesCheck(token jwt.Token) error {
 		return fmt.Errorf("token jti is not a valid uuid: %w", err)
 	}
 
+	// Ensure the expiration can be enforced: the JWT library treats an "exp" of 0 as absent and skips the
+	// expiry check, so such a token would be valid forever
+	if token.Expiration().Unix() <= 0 {
+		return errors.New("token exp must be a positive timestamp")
+	}
+
 	// Ensure the expiration is no more than 24.5 hours after NotBefore
 	maxExpirationAfterNotBefore := token.NotBefore().Add(time.Minute * time.Duration(1470))
 	if token.Expiration().After(maxExpirationAfterNotBefore) {
